@@ -21,6 +21,9 @@ CONSTANTS Kinds,            \* subset of {"rm", "rcm"}
                             \* FALSE: as first written (checked only before taking the lock)
           GraceRecheck,     \* TRUE: the grace closer as repaired (after its timer fired it looks at closeFatalShutdown
                             \* first and returns when that is closed); FALSE: as found (timer and channel raced)
+          ReleaseBeforeStart, \* TRUE: Run as repaired (with exactly one closer - the grace closer alone, or a single user
+                            \* closer - closeFatalShutdown is closed BEFORE the closer goroutines are started); FALSE: as found
+                            \* (closed only in the collection loop, i.e. after the goroutines were started)
           Monitor,          \* TRUE: every visible step feeds the contract monitor c (exhaustive checking);
                             \* FALSE: c is left alone (trace validation of this model against the code)
           Defect            \* "none" | "errsEarly" | "releaseLate" | "filterCtxErr" | "closersEarly" | "noWaitClose"
@@ -176,7 +179,8 @@ StartClosing ==
   /\ nloop' = IF Defect = "errsEarly" THEN nearly ELSE Len(regs) + GraceN
   /\ cpc' = [j \in DOMAIN cpc |-> IF \E x \in DOMAIN regs : regs[x] = j THEN "spawned" ELSE cpc[j]]
   /\ gpc' = IF Installed THEN "spawned" ELSE "none"
-  /\ UNCHANGED <<kind, nr, nc, grace, mrunning, rl, apr, now, running, closeCh, stopped, closeFS, pcan, ctx, rpc, hpc, icnt, ierrs,
+  /\ closeFS' = (closeFS \/ (ReleaseBeforeStart /\ nloop' = 1))     \* closer.go: if len(c.closers) == 1 { close(...) }
+  /\ UNCHANGED <<kind, nr, nc, grace, mrunning, rl, apr, now, running, closeCh, stopped, pcan, ctx, rpc, hpc, icnt, ierrs,
                  runid, nearly, regs, cres, garm, ccnt, cerrs, retErr, apc, kpc, nrun, c>>
 
 CloserBegin(j) ==
